@@ -37,6 +37,14 @@ func (c *Clause) HasProp(p string) bool {
 	return false
 }
 
+// ArgFrom: every call of Callee passes, as argument Arg, the result of a call of Producer made in the same function.
+type ArgFrom struct {
+	Props            []string
+	Callee, Producer string
+	Arg              int
+	Line             int
+}
+
 type LetDef struct {
 	Name string
 	Text string
@@ -48,6 +56,7 @@ type ModClause struct {
 	Props   []string
 	Profile string
 	Exprs   []Expr // empty = modifies nothing
+	Since   Expr   // modifies since(mark): anything allocated at or after mark may change, nothing older
 	Text    string
 }
 
@@ -118,10 +127,14 @@ type FuncContract struct {
 	Trusted  bool
 	Pure     bool // no effects at all (extern stubs)
 	NoAlloc  bool
+	Recovered bool             // explicit panics in this function are caught by a deferred recover up the (trusted) call chain
 	Opaque   bool              // do not inline even if loop free: treat by contract only
 	CallsAs  map[string]string // source text of callee expr -> contract key
 	Logicals []QVar
 	Lets     []*LetDef // names defined from the parameters at entry
+	Across   map[string][]*Clause // invariants over locals that hold across calls of the named callee (callbacks preserve them)
+	OnWrite  map[string][]*Clause // predicates over `value` for every write into the described map
+	ArgFrom  []*ArgFrom
 	Logged   bool
 	File     string
 	Line     int
@@ -211,7 +224,7 @@ var tagRe = regexp.MustCompile(`^\[([^\]]*)\]\s*`)
 var labelRe = regexp.MustCompile(`^([A-Za-z_][A-Za-z0-9_\-]*):\s+`)
 var headRe = regexp.MustCompile(`^(func|iface|sig|extern|spec|globalinv|atomicfield)\s+(.*)$`)
 var clauseKw = map[string]bool{"returns": true, "safety": true, "requires": true, "ensures": true, "modifies": true, "writes": true,
-	"loop": true, "let": true, "inline": true, "trusted": true, "pure": true, "calls": true, "logical": true, "opaque": true, "logged": true, "noalloc": true}
+	"loop": true, "let": true, "across": true, "onwrite": true, "argfrom": true, "inline": true, "trusted": true, "pure": true, "calls": true, "logical": true, "opaque": true, "recovered": true, "logged": true, "noalloc": true}
 
 func parseTags(s string) (props []string, profile string, rest string) {
 	m := tagRe.FindStringSubmatch(s)
@@ -357,10 +370,15 @@ func (cs *ContractSet) ParseFile(path, pkg string) error {
 			fc := &FuncContract{Kind: kind, Pkg: pkg, Loops: map[int]*LoopContract{}, CallsAs: map[string]string{}, File: path, Line: lineNo}
 			name := rest
 			if kind != "func" {
-				// name(params) [returns (a, b)]
-				if i := strings.Index(rest, "("); i >= 0 {
+				// name(params) [returns (a, b)]; the name may start with a parenthesised receiver
+				skip := 0
+				if strings.HasPrefix(rest, "(") {
+					skip = strings.Index(rest, ")") + 1
+				}
+				if i := strings.Index(rest[skip:], "("); i >= 0 {
+					i += skip
 					name = strings.TrimSpace(rest[:i])
-					j := strings.Index(rest, ")")
+					j := i + strings.Index(rest[i:], ")")
 					if j < i {
 						return fmt.Errorf("%s:%d: bad header", path, lineNo)
 					}
@@ -470,6 +488,8 @@ func (cs *ContractSet) addClause(fc *FuncContract, t, file string, line int) err
 		fc.NoAlloc = true
 	case "opaque":
 		fc.Opaque = true
+	case "recovered":
+		fc.Recovered = true
 	case "logged":
 		fc.Logged = true
 	case "calls":
@@ -479,6 +499,38 @@ func (cs *ContractSet) addClause(fc *FuncContract, t, file string, line int) err
 			return fmt.Errorf("%s:%d: calls needs 'as'", file, line)
 		}
 		fc.CallsAs[strings.TrimSpace(rest[:i])] = strings.TrimSpace(rest[i+4:])
+	case "across", "onwrite":
+		// across <callee>: expr   |   onwrite <map description>: expr over `value`
+		props, profile, r := parseTags(rest)
+		i := strings.Index(r, ":")
+		if i < 0 {
+			return fmt.Errorf("%s:%d: %s NAME: expr", file, line, kw)
+		}
+		ex, err := ParseExpr(r[i+1:])
+		if err != nil {
+			return fmt.Errorf("%s:%d: %v", file, line, err)
+		}
+		c := &Clause{Kind: kw, Props: props, Profile: profile, Label: strings.TrimSpace(r[:i]), Text: strings.TrimSpace(r[i+1:]), Expr: ex, File: file, Line: line}
+		if kw == "across" {
+			if fc.Across == nil {
+				fc.Across = map[string][]*Clause{}
+			}
+			fc.Across[c.Label] = append(fc.Across[c.Label], c)
+		} else {
+			if fc.OnWrite == nil {
+				fc.OnWrite = map[string][]*Clause{}
+			}
+			fc.OnWrite[c.Label] = append(fc.OnWrite[c.Label], c)
+		}
+	case "argfrom":
+		props, _, r := parseTags(rest)
+		parts := strings.Fields(r)
+		if len(parts) != 2 || !strings.Contains(parts[0], "#") {
+			return fmt.Errorf("%s:%d: argfrom CALLEE#N PRODUCER", file, line)
+		}
+		cp := strings.SplitN(parts[0], "#", 2)
+		n, _ := strconv.Atoi(cp[1])
+		fc.ArgFrom = append(fc.ArgFrom, &ArgFrom{Props: props, Callee: cp[0], Arg: n, Producer: parts[1], Line: line})
 	case "let":
 		i := strings.Index(rest, "=")
 		if i < 0 {
@@ -521,7 +573,13 @@ func (cs *ContractSet) addClause(fc *FuncContract, t, file string, line int) err
 	case "modifies":
 		props, profile, r := parseTags(rest)
 		mc := &ModClause{Props: props, Profile: profile, Text: r}
-		if strings.TrimSpace(r) != "nothing" {
+		if rs := strings.TrimSpace(r); strings.HasPrefix(rs, "since(") && strings.HasSuffix(rs, ")") {
+			ex, err := ParseExpr(rs[len("since(") : len(rs)-1])
+			if err != nil {
+				return fmt.Errorf("%s:%d: %v", file, line, err)
+			}
+			mc.Since = ex
+		} else if rs != "nothing" {
 			for _, part := range splitTop(r, ',') {
 				ex, err := ParseExpr(part)
 				if err != nil {
